@@ -16,6 +16,7 @@ Proof.
   brk_hyp H; inversion H; subst; clear H.
   all: cbn [flat_map send_msgs app].
   all: cbn [op_ids].
+  all: pose proof (io_dg _ _ I) as [DG DGS].
   all: change (v_dict_brackets repaired) with false in *.
   all: (split; [ try solve [inv_tac I] | try solve [constructor] ]).
   all: try solve [ use_target L I; use_nodes L I; unfold pargroup_creation_cmd, group_creation_cmd, py_int in *;
@@ -42,6 +43,7 @@ Proof.
   brk_hyp H; inversion H; subst; clear H.
   all: cbn [flat_map send_msgs app].
   all: cbn [op_ids].
+  all: pose proof (io_dg _ _ I) as [DG DGS].
   all: change (v_dict_brackets repaired) with false in *.
   all: (split; [ try solve [inv_tac I] | try solve [constructor] ]).
   all: try solve [ use_target L I; use_nodes L I; unfold pargroup_creation_cmd, group_creation_cmd, py_int in *;
@@ -63,6 +65,7 @@ Proof.
   brk_hyp H; inversion H; subst; clear H.
   all: cbn [flat_map send_msgs app].
   all: cbn [op_ids].
+  all: pose proof (io_dg _ _ I) as [DG DGS].
   all: change (v_dict_brackets repaired) with false in *.
   all: (split; [ try solve [inv_tac I] | try solve [constructor] ]).
   all: try solve [ use_target L I; use_nodes L I; unfold pargroup_creation_cmd, group_creation_cmd, py_int in *;
@@ -91,6 +94,7 @@ Proof.
   brk_hyp H; inversion H; subst; clear H.
   all: cbn [flat_map send_msgs app].
   all: cbn [op_ids].
+  all: pose proof (io_dg _ _ I) as [DG DGS].
   all: change (v_dict_brackets repaired) with false in *.
   all: (split; [ try solve [inv_tac I] | try solve [constructor] ]).
   all: try solve [ use_target L I; use_nodes L I; unfold pargroup_creation_cmd, group_creation_cmd, py_int in *;
@@ -121,6 +125,7 @@ Proof.
   brk_hyp H; inversion H; subst; clear H.
   all: cbn [flat_map send_msgs app].
   all: cbn [op_ids].
+  all: pose proof (io_dg _ _ I) as [DG DGS].
   all: change (v_dict_brackets repaired) with false in *.
   all: (split; [ try solve [inv_tac I] | try solve [constructor] ]).
   all: try solve [ use_target L I; use_nodes L I; unfold pargroup_creation_cmd, group_creation_cmd, py_int in *;
@@ -155,6 +160,7 @@ Proof.
   brk_hyp H; inversion H; subst; clear H.
   all: cbn [flat_map send_msgs app].
   all: cbn [op_ids].
+  all: pose proof (io_dg _ _ I) as [DG DGS].
   all: change (v_dict_brackets repaired) with false in *.
   all: (split; [ try solve [inv_tac I] | try solve [constructor] ]).
   all: try solve [ use_target L I; use_nodes L I; unfold pargroup_creation_cmd, group_creation_cmd, py_int in *;
@@ -185,6 +191,7 @@ Proof.
   brk_hyp H; inversion H; subst; clear H.
   all: cbn [flat_map send_msgs app].
   all: cbn [op_ids].
+  all: pose proof (io_dg _ _ I) as [DG DGS].
   all: change (v_dict_brackets repaired) with false in *.
   all: (split; [ try solve [inv_tac I] | try solve [constructor] ]).
   all: try solve [ use_target L I; use_nodes L I; unfold pargroup_creation_cmd, group_creation_cmd, py_int in *;
@@ -206,6 +213,7 @@ Proof.
   brk_hyp H; inversion H; subst; clear H.
   all: cbn [flat_map send_msgs app].
   all: cbn [op_ids].
+  all: pose proof (io_dg _ _ I) as [DG DGS].
   all: change (v_dict_brackets repaired) with false in *.
   all: (split; [ try solve [inv_tac I] | try solve [constructor] ]).
   all: try solve [ use_target L I; use_nodes L I; unfold pargroup_creation_cmd, group_creation_cmd, py_int in *;
@@ -227,6 +235,7 @@ Proof.
   brk_hyp H; inversion H; subst; clear H.
   all: cbn [flat_map send_msgs app].
   all: cbn [op_ids].
+  all: pose proof (io_dg _ _ I) as [DG DGS].
   all: change (v_dict_brackets repaired) with false in *.
   all: (split; [ try solve [inv_tac I] | try solve [constructor] ]).
   all: try solve [ use_target L I; use_nodes L I; unfold pargroup_creation_cmd, group_creation_cmd, py_int in *;
@@ -248,6 +257,7 @@ Proof.
   brk_hyp H; inversion H; subst; clear H.
   all: cbn [flat_map send_msgs app].
   all: cbn [op_ids].
+  all: pose proof (io_dg _ _ I) as [DG DGS].
   all: change (v_dict_brackets repaired) with false in *.
   all: (split; [ try solve [inv_tac I] | try solve [constructor] ]).
   all: try solve [ use_target L I; use_nodes L I; unfold pargroup_creation_cmd, group_creation_cmd, py_int in *;
@@ -269,6 +279,7 @@ Proof.
   brk_hyp H; inversion H; subst; clear H.
   all: cbn [flat_map send_msgs app].
   all: cbn [op_ids].
+  all: pose proof (io_dg _ _ I) as [DG DGS].
   all: change (v_dict_brackets repaired) with false in *.
   all: (split; [ try solve [inv_tac I] | try solve [constructor] ]).
   all: try solve [ use_target L I; use_nodes L I; unfold pargroup_creation_cmd, group_creation_cmd, py_int in *;
@@ -293,6 +304,7 @@ Proof.
   brk_hyp H; inversion H; subst; clear H.
   all: cbn [flat_map send_msgs app].
   all: cbn [op_ids].
+  all: pose proof (io_dg _ _ I) as [DG DGS].
   all: change (v_dict_brackets repaired) with false in *.
   all: (split; [ try solve [inv_tac I] | try solve [constructor] ]).
   all: try solve [ use_target L I; use_nodes L I; unfold pargroup_creation_cmd, group_creation_cmd, py_int in *;
@@ -314,6 +326,7 @@ Proof.
   brk_hyp H; inversion H; subst; clear H.
   all: cbn [flat_map send_msgs app].
   all: cbn [op_ids].
+  all: pose proof (io_dg _ _ I) as [DG DGS].
   all: change (v_dict_brackets repaired) with false in *.
   all: (split; [ try solve [inv_tac I] | try solve [constructor] ]).
   all: try solve [ use_target L I; use_nodes L I; unfold pargroup_creation_cmd, group_creation_cmd, py_int in *;
@@ -335,6 +348,7 @@ Proof.
   brk_hyp H; inversion H; subst; clear H.
   all: cbn [flat_map send_msgs app].
   all: cbn [op_ids].
+  all: pose proof (io_dg _ _ I) as [DG DGS].
   all: change (v_dict_brackets repaired) with false in *.
   all: (split; [ try solve [inv_tac I] | try solve [constructor] ]).
   all: try solve [ use_target L I; use_nodes L I; unfold pargroup_creation_cmd, group_creation_cmd, py_int in *;
@@ -356,6 +370,7 @@ Proof.
   brk_hyp H; inversion H; subst; clear H.
   all: cbn [flat_map send_msgs app].
   all: cbn [op_ids].
+  all: pose proof (io_dg _ _ I) as [DG DGS].
   all: change (v_dict_brackets repaired) with false in *.
   all: (split; [ try solve [inv_tac I] | try solve [constructor] ]).
   all: try solve [ use_target L I; use_nodes L I; unfold pargroup_creation_cmd, group_creation_cmd, py_int in *;
